@@ -30,7 +30,11 @@ func (e *TupleMapExpr) Eval(ctx context.Context, local Scope) (Value, error) {
 	if err != nil {
 		return nil, WrapContextErr(err, e, local)
 	}
-	return value.(Tuple).Map(func(v Value) (Value, error) {
+	tuple, is := value.(Tuple)
+	if !is {
+		return nil, WrapContextErr(fmt.Errorf(":> lhs must be a tuple, not %s", ValueTypeAsString(value)), e, local)
+	}
+	return tuple.Map(func(v Value) (Value, error) {
 		ctx, scope, err := e.fn.arg.Bind(ctx, local, v)
 		if err != nil {
 			return nil, err
